@@ -1,6 +1,7 @@
 SPECIFICATION Spec
 CONSTANTS KnownDevs = {}
 INVARIANTS
+  InEnvelope
   C02_ExactlyOneResponse
   C02_ResponseTypeMatches
   C02_SequenceNumberEchoed
@@ -9,7 +10,6 @@ INVARIANTS
   C02_EstablishmentResponseShape
   C02_CreatedPdrPerChosenValue
   C02_FseidAddressesSession
-  InEnvelope
 POSTCONDITION TraceAccepted
 ALIAS Alias
 CHECK_DEADLOCK FALSE
